@@ -1,10 +1,4 @@
-<<<<<<< HEAD
 #pragma once
 struct llist_head {
 	struct llist_head *next, *prev;
 };
-=======
-/* shim: the in-tree linuxlist.h is used as is */
-#pragma once
-#include_next <osmocom/core/linuxlist.h>
->>>>>>> 290d82d36de733d6cf0d7509f16f5a44d8446d2e
